@@ -62,6 +62,27 @@ func genDumpMsg(r *monitor.Rand, depth int) (b []byte, nodes []*dnode) {
 	return b, nodes
 }
 
+// genBushy builds a message with two nested-message fields (distinct numbers) and a scalar or string per level.
+func genBushy(r *monitor.Rand, depth int) (b []byte, nodes []*dnode) {
+	nums := [][2]int{{1, 2}, {3, 4}, {2, 15}, {16, 1}}[r.Intn(4)]
+	for k := 0; k < 2; k++ {
+		if depth > 0 {
+			nd := &dnode{num: nums[k], wt: 2, isMsg: true}
+			nd.payload, nd.children = genBushy(r, depth-1-r.Intn(2))
+			b = refwire.AppendLen(refwire.AppendKey(b, nums[k], 2), nd.payload)
+			nodes = append(nodes, nd)
+		} else {
+			nd := &dnode{num: nums[k], wt: 2, payload: []byte([]string{"leaf", "x", ""}[r.Intn(3)])}
+			b = refwire.AppendLen(refwire.AppendKey(b, nums[k], 2), nd.payload)
+			nodes = append(nodes, nd)
+		}
+	}
+	v := &dnode{num: 7, wt: 0, val: uint64(depth)}
+	b = refwire.AppendVarint(refwire.AppendKey(b, 7, 0), v.val)
+	nodes = append(nodes, v)
+	return b, nodes
+}
+
 // genDeepChain builds a message nested depth levels deep: every level holds a varint, optionally a string, and
 // the next level.
 func genDeepChain(r *monitor.Rand, depth int) (b []byte, nodes []*dnode) {
@@ -185,6 +206,13 @@ func runDump(cfg *config, res *monitor.Result) {
 			deep = []int{8, 9, 10, 12, 16, 24, 40}[r.Intn(7)]
 			input, nodes = genDeepChain(r, deep)
 		}
+		bushy := 0
+		if i%40 == 13 {
+			// several nested-message siblings per level, 4-7 levels deep, with a random prefix-closed expand set:
+			// neighbours at the same depth get different answers from the path matcher
+			bushy = 4 + r.Intn(4)
+			input, nodes = genBushy(r, bushy)
+		}
 		var msgPaths, ldPaths [][]int
 		collectPaths(nodes, nil, &msgPaths, &ldPaths)
 		expand, strs := map[string]bool{}, map[string]bool{}
@@ -287,6 +315,9 @@ func runDump(cfg *config, res *monitor.Result) {
 		cls := fmt.Sprintf("dump/%s/expand%d/strings%d/valid%v", channel, min(len(expand), 2), min(len(strs), 2), valid)
 		if deep > 0 {
 			cls = fmt.Sprintf("dump/deep-chain/levels%d/valid%v", deep, valid)
+		}
+		if bushy > 0 {
+			cls = fmt.Sprintf("dump/bushy/levels%d/expand%d/valid%v", bushy, min(len(expand), 6), valid)
 		}
 		classes[cls]++
 		if strings.Contains(stderr.String(), "panic:") || strings.Contains(stderr.String(), "goroutine ") {
